@@ -131,8 +131,29 @@ def mi_block(case):
     np.random.RandomState(order_seed).shuffle(labels)
     P = np.eye(K)[labels]
     v = []
-    for label, g in (("MI()", G.MI()), ("KLGEMINI()", G.KLGEMINI()), ("name:mi", _str_to_gemini("mi")), ("name:kl_ova", _str_to_gemini("kl_ova"))):
-        s = float(g(P.copy(), None))
+    from mc import transport
+    objs = [("MI()", G.MI()), ("KLGEMINI()", G.KLGEMINI()), ("name:mi", _str_to_gemini("mi")), ("name:kl_ova", _str_to_gemini("kl_ova"))]
+    # the same objectives after a pickle / deepcopy / cloudpickle round trip, and inside a cloned / pickled model
+    for lab0, g0 in list(objs):
+        for kind_ in transport.KINDS:
+            try:
+                objs.append((f"{lab0} after {kind_}", transport.roundtrip(g0, kind_)))
+            except Exception as e:  # noqa
+                v.append(violation("mi_of_balanced_partition_not_logK", {"K": K, "m": m, "error": repr(e)[:200]}, target=f"{lab0} after {kind_}"))
+    try:
+        from sklearn.base import clone
+        from gemclus.linear import LinearModel
+        mdl = LinearModel(n_clusters=K, gemini=G.MI())
+        objs.append(("clone(LinearModel(gemini=MI())).get_gemini()", clone(mdl).get_gemini()))
+        objs.append(("pickled LinearModel(gemini=MI()).get_gemini()", transport.roundtrip(mdl, "pickle").get_gemini()))
+    except Exception as e:  # noqa
+        v.append(violation("mi_of_balanced_partition_not_logK", {"K": K, "m": m, "error": repr(e)[:200]}, target="model with gemini=MI() after transport"))
+    for label, g in objs:
+        try:
+            s = float(g(P.copy(), None))
+        except Exception as e:  # noqa
+            v.append(violation("mi_of_balanced_partition_not_logK", {"K": K, "m": m, "error": repr(e)[:200]}, target=label))
+            continue
         if abs(s - math.log(K)) > 1e-9:
             v.append(violation("mi_of_balanced_partition_not_logK", {"K": K, "m": m, "score": s, "logK": math.log(K)}, target=label))
     return {"v": v, "nt": [(K, m)] if K > 1 else [], "stats": {"evals": 4}, "sample": {"K": K, "m": m, "labels": labels}}
@@ -209,6 +230,9 @@ def large_inv_case(case):
     else:
         kw, A = {}, None
     g = _gemini(target, kw)
+    if (ti + K) % 2 == 0:
+        from mc import transport
+        g = transport.roundtrip(g, transport.pick((ti, K, n)))          # the objective as a cloned / pickled model carries it
     hard = np.eye(K)[rs.choice(K, size=n, p=rs.dirichlet(np.ones(K) * 2))]
     mats = [softmax(rs.normal(size=(n, K)) * 1.5), 0.9 * hard + 0.1 / K, hard]
     perms = {"reverse": np.arange(n)[::-1], "rotate_by_one": np.roll(np.arange(n), 1), "shuffle": rs.permutation(n),
